@@ -238,11 +238,12 @@ pub fn history_scn(tier: &str) -> Vec<PairScn> {
     let amps: Vec<u64> = if tier == "quick" { vec![100] } else { vec![10, 100] };
     for amp in amps {
         let mut roots = vec![];
-        let decs: Vec<[u8; 2]> = vec![[6, 6], [6, 18]];
+        // (6,8): close decimals, where a mix-up of the two still yields a solvable but wrong curve
+        let decs: Vec<[u8; 2]> = if tier == "quick" { vec![[6, 6], [6, 18], [6, 8]] } else { vec![[6, 6], [6, 18], [6, 8], [8, 6]] };
         for d in decs {
             let one = |dec: u8| 10u128.pow(dec as u32);
             for (fi, f) in [Fee3::new(ONE18 / 1000, 2 * ONE18 / 1000, ONE18 / 1000), Fee3::new(0, 0, 0)].iter().enumerate() {
-                if tier == "quick" && fi == 1 && d == [6, 18] {
+                if tier == "quick" && fi == 1 && d != [6, 6] {
                     continue;
                 }
                 roots.push(PairRoot {
